@@ -463,7 +463,7 @@ int main(int argc, char** argv) {
     std::vector<double> lats = {-90, -89.9, -80.00000001, -80, -79.99, -72, -45.123456789, -1e-9, -0.0, 0, 1e-9, 33.44, 56, 60, 64, 72, 83.99999, 84, 84.00001, 89.99, 90};
     std::vector<double> lons = {-180, -179.999, -177, -75, -6, -3, -1e-9, 0, 1e-9, 3, 5.9999999, 6, 9, 12, 21, 33, 42, 43.27, 177, 179.999999, 180};
     if (T) { for (double v : {-88.0, -84.0, -60.0, -30.0, -8.0, 8.0, 30.0, 45.5, 80.0, 88.0}) lats.push_back(v); for (double v : {-150.0, -120.0, -90.0, -60.0, -30.0, 30.0, 60.0, 90.0, 120.0, 150.0}) lons.push_back(v); }
-    ctx.bound("geocoords", fmti((long long)lats.size()) + " lat x " + fmti((long long)lons.size()) + " lon x {Geo prec -5..9 x longfirst, DMS prec -5..10 x longfirst x sep {0,':'}, UTMUPS prec -5..9 x abbrev, MGRS prec -6..6 x centerp} x separators {space, comma, comma+space, tab, padded}");
+    ctx.bound("geocoords", fmti((long long)lats.size()) + " lat x " + fmti((long long)lons.size()) + " lon x {Geo prec -5..9 x longfirst, DMS prec -5..10 x longfirst x sep {0,':'}, UTMUPS prec -5..9 x abbrev x {own hemisphere, override north, override south}, MGRS prec -6..6 x centerp} x separators {space, comma, comma+space, tab, padded}");
     ctx.note("geocoords: a coarse representation moves the point by up to half a unit; zone/hemisphere are compared with those of the position the representation names (GeoCoords built numerically from the parsed coordinates), not with those of the original point");
     auto variants = [](const std::string& rep) {
       std::vector<std::string> v{rep};
@@ -474,11 +474,10 @@ int main(int argc, char** argv) {
       v.push_back(a); v.push_back(b); v.push_back(c); v.push_back(d);
       return v;
     };
-    for (double lat : lats) for (double lon : lons) {
-      if (!ctx.take()) continue;
-      GeoCoords g0;
-      try { g0.Reset(lat, lon); } catch (const std::exception& e) { Ctx::Case cs(ctx); ctx.fail("Reset(" + fmt(lat) + "," + fmt(lon) + ")", std::string("numeric Reset threw: ") + e.what(), {{"kind", "numeric-reset"}}); continue; }
-      std::string pos = "(" + fx(lat) + "," + fx(lon) + ")";
+    // all representations of one position.  utm_lattice: the position was given as UTM coordinates, possibly outside the MGRS
+    // area (then MGRSRepresentation may throw GeographicErr)
+    auto check_pos = [&](const GeoCoords& g0, const std::string& pos, bool utm_lattice) {
+      const double lat = g0.Latitude(), lon = g0.Longitude();
       auto F = [&](const char* kind, const std::string& rep) { return mc::Fields{{"kind", kind}, {"lat", fmt(lat)}, {"lon", fmt(lon)}, {"rep", rep}}; };
       // a representation string names a position; Reset must return it, and agree with the numeric constructor on the zone
       auto dispatch_same = [&](const std::string& rep, const GC& r, bool centerp, bool longfirst) {
@@ -516,29 +515,41 @@ int main(int argc, char** argv) {
         }
         if (ctx.want_sample()) ctx.sample(key + " = '" + rep + "'");
       }
-      // ---- UTM/UPS
-      for (int abbrev = 0; abbrev < 2; ++abbrev) for (int prec = -5; prec <= 9; ++prec) {
+      // ---- UTM/UPS: overload 0 = own hemisphere, 1 / 2 = hemisphere override north / south
+      for (int ov = 0; ov < 3; ++ov) for (int abbrev = 0; abbrev < 2; ++abbrev) for (int prec = -5; prec <= 9; ++prec) {
         Ctx::Case cs(ctx);
-        std::string rep = g0.UTMUPSRepresentation(prec, abbrev != 0);
-        std::string key = pos + " UTMUPS prec " + fmti(prec) + " abbrev " + fmti(abbrev);
-        GC r = gc_reset(rep);
-        // expected easting/northing: the printed numbers
+        const bool pnorth = ov == 0 ? g0.Northp() : ov == 1;                 // hemisphere of the printed coordinates
+        std::string key = pos + " UTMUPS" + (ov == 0 ? "" : (ov == 1 ? "(north)" : "(south)")) + " prec " + fmti(prec) + " abbrev " + fmti(abbrev);
+        std::string rep;
+        {
+          Dec d; guard(d, [&] { rep = ov == 0 ? g0.UTMUPSRepresentation(prec, abbrev != 0) : g0.UTMUPSRepresentation(pnorth, prec, abbrev != 0); });
+          if (d.oc == 1 && ov != 0 && g0.Zone() == 0 && pnorth != g0.Northp()) { ctx.count("ups_hemisphere_override_rejected_as_documented"); continue; }
+          if (d.oc != 0) { ctx.fail(key, "UTMUPSRepresentation threw: " + d.what, F("rep-throws", "")); continue; }
+        }
+        ctx.sig(uint64_t(ov) * 32 + (prec + 5));
+        // the coordinates that are printed, in the printed hemisphere
+        const double shift = (g0.Zone() != 0 && pnorth != g0.Northp()) ? (pnorth ? -1e7 : 1e7) : 0;
+        const double e0 = g0.Easting(), n0 = g0.Northing() + shift;
         double unit = std::pow(10.0, -prec), tol = 0.5 * unit * (1 + 1e-9) + 4 * EPS * 1e7;
-        double pe = std::round(g0.Easting() / unit) * unit, pn = std::round(g0.Northing() / unit) * unit;
+        double pe = std::round(e0 / unit) * unit, pn = std::round(n0 / unit) * unit;
+        GC r = gc_reset(rep);
         if (r.oc != 0) {
-          // rounding to a coarse unit can leave the legal UTM/UPS area or cross the equator/pole limits: only then a rejection is legitimate
+          // rounding to a coarse unit (or the hemisphere override) can leave the legal UTM/UPS area: only then a rejection is legitimate
           bool legit = false;
-          try { double la, lo; UTMUPS::Reverse(g0.Zone(), g0.Northp(), pe, pn, la, lo); GeoCoords g3(g0.Zone(), g0.Northp(), pe, pn); (void)g3; } catch (const std::exception&) { legit = true; }
+          try { GeoCoords g3(g0.Zone(), pnorth, pe, pn); (void)g3; } catch (const std::exception&) { legit = true; }
           if (legit) { ctx.count("utmups_rounded_out_of_domain"); continue; }
           ctx.fail(key, "own representation '" + rep + "' rejected: " + r.what, F("rep-rejected", rep)); continue;
         }
-        double ee = std::fabs(r.e - g0.Easting()), en = std::fabs(r.n - g0.Northing());
-        // the reader may have flipped the hemisphere (FixHemisphere) when rounding moved the point across the equator
-        if (r.northp != g0.Northp() && r.zone == g0.Zone() && r.zone != 0) { en = std::fabs(r.n - (g0.Northing() + (r.northp ? -1 : 1) * 1e7)); ctx.count("utm_hemisphere_flipped_by_rounding"); }
-        else if (r.zone != g0.Zone() || r.northp != g0.Northp()) ctx.fail(key + "/zone", "'" + rep + "' reads back in zone " + fmti(r.zone) + (r.northp ? "n" : "s") + ", original " + fmti(g0.Zone()) + (g0.Northp() ? "n" : "s"), F("zone", rep));
+        // compare in the printed hemisphere; the reader flips the hemisphere when the latitude has the other sign (FixHemisphere)
+        double rn = r.n;
+        if (r.zone == g0.Zone() && r.zone != 0 && r.northp != pnorth) rn += pnorth ? -1e7 : 1e7;
+        else if (r.zone != g0.Zone() || r.northp != pnorth) ctx.fail(key + "/zone", "'" + rep + "' reads back in zone " + fmti(r.zone) + (r.northp ? "n" : "s") + ", printed " + fmti(g0.Zone()) + (pnorth ? "n" : "s"), F("zone", rep));
+        // the hemisphere finally held must be that of the latitude (either one on the equator)
+        if (r.zone != 0 && r.lat != 0 && r.northp != (r.lat > 0)) ctx.fail(key + "/hemi", "'" + rep + "' reads back with latitude " + fx(r.lat) + " in hemisphere " + (r.northp ? "n" : "s"), F("zone", rep));
+        double ee = std::fabs(r.e - e0), en = std::fabs(rn - n0);
         ctx.worst("geocoords.utm_err_over_tol", std::max(ee, en) / tol, key);
-        if (!(ee <= tol) || !(en <= tol)) ctx.fail(key, "'" + rep + "' reads back as " + fx(r.e) + " " + fx(r.n) + ", more than half a unit from " + fx(g0.Easting()) + " " + fx(g0.Northing()), F("rep-value", rep));
-        if (prec % 5 == 0) {
+        if (!(ee <= tol) || !(en <= tol)) ctx.fail(key, "'" + rep + "' reads back as " + fx(r.e) + " " + fx(rn) + ", more than half a unit of the last digit from " + fx(e0) + " " + fx(n0), F("rep-value", rep));
+        if (prec % 5 == 0 && ov == 0) {
           dispatch_same(rep, r, true, false);
           // "Easting Northing Zone" order
           size_t sp = rep.find(' ');
@@ -546,6 +557,7 @@ int main(int argc, char** argv) {
           GC q = gc_reset(alt);
           if (q.oc != 0 || !mc::same_bits(q.lat, r.lat) || !mc::same_bits(q.lon, r.lon) || q.zone != r.zone || q.northp != r.northp) ctx.fail(key + "/order", "'" + alt + "' (zone last) differs from '" + rep + "'", F("zone-last", rep));
         }
+        if (prec < 0 && ctx.want_sample()) ctx.sample(key + " = '" + rep + "'");
       }
       // ---- MGRS
       for (int prec = -6; prec <= 6; ++prec) for (int centerp = 0; centerp < 2; ++centerp) {
@@ -553,6 +565,7 @@ int main(int argc, char** argv) {
         std::string rep, what; bool threw = false;
         try { rep = g0.MGRSRepresentation(prec); } catch (const std::exception& e) { threw = true; what = e.what(); }
         std::string key = pos + " MGRS prec " + fmti(prec) + " centerp " + fmti(centerp);
+        if (threw && utm_lattice) { ctx.count("mgrs_outside_mgrs_area"); continue; }
         if (threw) { ctx.fail(key, "MGRSRepresentation threw for a standard-zone position: " + what, F("mgrs-forward", "")); continue; }
         GC r = gc_reset(rep, centerp);
         if (r.oc != 0) { ctx.fail(key, "own representation '" + rep + "' rejected: " + r.what, F("rep-rejected", rep)); continue; }
@@ -569,6 +582,33 @@ int main(int argc, char** argv) {
         if (!(g0.Easting() >= se - slack && g0.Easting() < se + unit + slack && n0 >= sn - slack && n0 < sn + unit + slack))
           ctx.fail(key, "'" + rep + "' reads back as the square at " + fx(se) + " " + fx(sn) + " (side " + fmt(unit) + ") which does not contain " + fx(g0.Easting()) + " " + fx(n0), F("rep-value", rep));
         if (prec % 3 == 0 && centerp) dispatch_same(rep, r, true, false);
+      }
+    };
+    for (double lat : lats) for (double lon : lons) {
+      if (!ctx.take()) continue;
+      GeoCoords g0;
+      try { g0.Reset(lat, lon); } catch (const std::exception& e) { Ctx::Case cs(ctx); ctx.fail("Reset(" + fmt(lat) + "," + fmt(lon) + ")", std::string("numeric Reset threw: ") + e.what(), {{"kind", "numeric-reset"}}); continue; }
+      check_pos(g0, "(" + fx(lat) + "," + fx(lon) + ")", false);
+    }
+    // ---- UTM coordinate lattice: eastings / northings just below and above 0.5 and 1 (and 1.5) units of every negative
+    // precision, i.e. where the number of printed digits and the zero padding change
+    {
+      std::vector<double> V;
+      for (int p = 1; p <= 5; ++p) { double u = std::pow(10.0, p); for (double f : {0.4, 0.4999, 0.5, 0.5001, 0.999, 1.0, 1.4999, 1.5001}) V.push_back(f * u); }
+      std::vector<double> E = V, N = V; E.push_back(500000); N.push_back(0); N.push_back(2500000);
+      ctx.bound("geocoords.utm_lattice", std::string("zone 31: eastings / northings {0.4, 0.4999, 0.5, 0.5001, 0.999, 1, 1.4999, 1.5001} x 10^p m, p = 1..5 (+ easting 500 km, northings 0 and 2500 km), north, and south with northing 10^7 - v; ") + (T ? "full product" : "each axis against a generic value of the other, and the diagonal") + "; x every representation incl. UTMUPSRepresentation with hemisphere override");
+      auto one = [&](bool northp, double e, double n) {
+        if (!ctx.take()) return;
+        GeoCoords g0;
+        std::string pos = std::string("31") + (northp ? "n " : "s ") + fx(e) + " " + fx(n);
+        try { g0.Reset(31, northp, e, n); } catch (const std::exception& ex) { Ctx::Case cs(ctx); ctx.fail("Reset(" + pos + ")", std::string("numeric Reset threw: ") + ex.what(), {{"kind", "numeric-reset"}}); return; }
+        check_pos(g0, pos, true);
+      };
+      for (size_t i = 0; i < E.size(); ++i) for (size_t j = 0; j < N.size(); ++j) {
+        bool generic_e = E[i] == 500000, generic_n = N[j] == 2500000, diag = i < V.size() && i == j;
+        if (!T && !(generic_e || generic_n || diag)) continue;
+        one(true, E[i], N[j]);
+        if (j < V.size() && (T || generic_e)) one(false, E[i], 1e7 - N[j]);
       }
     }
     // token-count dispatch
